@@ -413,3 +413,5 @@ func inPlaceLiteral(zero *ssa.Store) (map[string]ssa.Value, bool) {
 	}
 	return fields, true
 }
+
+func readFileWithOverlay(l *core.Ledger, fname string) ([]byte, error) { return l.Prog.ReadFile(fname) }
